@@ -331,7 +331,7 @@ def rule_logic(E, R):
         g = got_vec.get(op)
         R.check(g == b, rule, fn, "element-wise %s uses %s" % (op.lower(), b[0]), "extracted %s" % (g,), h["span"])
     # xor fold starts from the first operand
-    inits = [(strip(node["args"][0]), st) for node, st in sem.sem_walk(E, h)
+    inits = [(deref(node["args"][0]), st) for node, st in sem.sem_walk(E, h)
              if node.get("k") == "MethodCall" and node["m"] == "fold" and arm_variants(st, "LogicalOp") == ["Xor"]]
     inits += [(strip(i_), st) for i_, st in xor_inits if i_ is not None and arm_variants(st, "LogicalOp") == ["Xor"]]
     for init, st in inits:
